@@ -62,6 +62,68 @@ package storage
 //@ spec macro anchorText(t *time.Time) String = ite(t != nil, timefmt(deref(t), "2006-01-02T15:04:05.999999999Z07:00"), "nil")
 //@ spec macro loEnc(l *LookupOptions) String = enc1(itoa(l.MaxElements), enc2(anchorText(l.LowerAnchor), enc3(anchorText(l.UpperAnchor), enc4(ite(l.LatestAnchor, "true", "false"), strof(l.FilterOptions, "*filter.StorageOptions")))))
 
+
+// The lookups (ASSUMED for every driver; storage/memory's are proved against stronger contracts under
+// C02/C07): a lookup sends well-formed values on the channel it is given and closes it, exactly once,
+// whether or not it returns an error.
+//@ props C20 C03 C12
+//@ func (this Graph) Objects
+//@   nobody
+//@   requires objs != nil && objs.#closed == 0
+//@   modifies $driverFailed, objs.#out, objs.#closed
+//@   ghostdef result != nil ==> $driverFailed
+//@   ghostdef result == nil ==> $driverFailed == old($driverFailed)
+//@   ensures[closes-the-channel] objs.#closed == 1 && objs.#len >= old(objs.#len)
+//@   ensures[sends-well-formed-values] forall k int :: {objs.#out[k]} 0 <= k && k < objs.#len ==> ite(k < old(objs.#len), objs.#out[k] == old(objs.#out[k]), wfObj(objs.#out[k]))
+//@ func (this Graph) Subjects
+//@   nobody
+//@   requires subs != nil && subs.#closed == 0
+//@   modifies $driverFailed, subs.#out, subs.#closed
+//@   ghostdef result != nil ==> $driverFailed
+//@   ghostdef result == nil ==> $driverFailed == old($driverFailed)
+//@   ensures[closes-the-channel] subs.#closed == 1 && subs.#len >= old(subs.#len)
+//@   ensures[sends-well-formed-values] forall k int :: {subs.#out[k]} 0 <= k && k < subs.#len ==> ite(k < old(subs.#len), subs.#out[k] == old(subs.#out[k]), wfNode(subs.#out[k]))
+//@ func (this Graph) PredicatesForSubjectAndObject
+//@   nobody
+//@   requires prds != nil && prds.#closed == 0
+//@   modifies $driverFailed, prds.#out, prds.#closed
+//@   ghostdef result != nil ==> $driverFailed
+//@   ghostdef result == nil ==> $driverFailed == old($driverFailed)
+//@   ensures[closes-the-channel] prds.#closed == 1 && prds.#len >= old(prds.#len)
+//@   ensures[sends-well-formed-values] forall k int :: {prds.#out[k]} 0 <= k && k < prds.#len ==> ite(k < old(prds.#len), prds.#out[k] == old(prds.#out[k]), prds.#out[k] != nil)
+//@ func (this Graph) TriplesForSubject
+//@   nobody
+//@   requires trpls != nil && trpls.#closed == 0
+//@   modifies $driverFailed, trpls.#out, trpls.#closed
+//@   ghostdef result != nil ==> $driverFailed
+//@   ghostdef result == nil ==> $driverFailed == old($driverFailed)
+//@   ensures[closes-the-channel] trpls.#closed == 1 && trpls.#len >= old(trpls.#len)
+//@   ensures[sends-well-formed-values] forall k int :: {trpls.#out[k]} 0 <= k && k < trpls.#len ==> ite(k < old(trpls.#len), trpls.#out[k] == old(trpls.#out[k]), wfTriple(trpls.#out[k]))
+//@ func (this Graph) TriplesForPredicate
+//@   nobody
+//@   requires trpls != nil && trpls.#closed == 0
+//@   modifies $driverFailed, trpls.#out, trpls.#closed
+//@   ghostdef result != nil ==> $driverFailed
+//@   ghostdef result == nil ==> $driverFailed == old($driverFailed)
+//@   ensures[closes-the-channel] trpls.#closed == 1 && trpls.#len >= old(trpls.#len)
+//@   ensures[sends-well-formed-values] forall k int :: {trpls.#out[k]} 0 <= k && k < trpls.#len ==> ite(k < old(trpls.#len), trpls.#out[k] == old(trpls.#out[k]), wfTriple(trpls.#out[k]))
+//@ func (this Graph) TriplesForObject
+//@   nobody
+//@   requires trpls != nil && trpls.#closed == 0
+//@   modifies $driverFailed, trpls.#out, trpls.#closed
+//@   ghostdef result != nil ==> $driverFailed
+//@   ghostdef result == nil ==> $driverFailed == old($driverFailed)
+//@   ensures[closes-the-channel] trpls.#closed == 1 && trpls.#len >= old(trpls.#len)
+//@   ensures[sends-well-formed-values] forall k int :: {trpls.#out[k]} 0 <= k && k < trpls.#len ==> ite(k < old(trpls.#len), trpls.#out[k] == old(trpls.#out[k]), wfTriple(trpls.#out[k]))
+//@ func (this Graph) Triples
+//@   nobody
+//@   requires trpls != nil && trpls.#closed == 0
+//@   modifies $driverFailed, trpls.#out, trpls.#closed
+//@   ghostdef result != nil ==> $driverFailed
+//@   ghostdef result == nil ==> $driverFailed == old($driverFailed)
+//@   ensures[closes-the-channel] trpls.#closed == 1 && trpls.#len >= old(trpls.#len)
+//@   ensures[sends-well-formed-values] forall k int :: {trpls.#out[k]} 0 <= k && k < trpls.#len ==> ite(k < old(trpls.#len), trpls.#out[k] == old(trpls.#out[k]), wfTriple(trpls.#out[k]))
+
 //@ props C19
 //@ func (l *LookupOptions) String
 //@   requires l != nil
